@@ -23,7 +23,7 @@ def title_of(m):
     return t[:120].replace('|', '/')
 
 
-NR = 7
+NR = 8
 rows = {k: [] for k in range(1, NR + 1)}
 
 
@@ -63,12 +63,13 @@ for k, v in seeded.items():
 HDR = '| change | what it does (author\'s heading) | own property | first failing obligation / reason for indecision | also reported under |\n|---|---|---|---|---|\n'
 out = []
 out.append('## 13. Seeded changes: what catches what\n')
-out.append("""%d property-breaking changes were written by fresh sub-agents in seven rounds (two per claimed property in rounds 1-3; C19 once,
+out.append("""%d property-breaking changes were written by fresh sub-agents in eight rounds (two per claimed property in rounds 1-3; C19 once,
 after it was claimed; rounds 4-6 asked for SMALL slips - a changed operator or constant, a wrong variable, an off-by-one, a wrong string
 literal, a Cargo feature - round 4 for eight properties, round 5 for the other nine, round 6 for fifteen with the instruction to
 look at code the property depends on INDIRECTLY (lexers, the proc-macro crate, trait impls, constants, Cargo.toml), round 7 for all
 seventeen with the instruction to look at DATA and METADATA (tables, constants, field order in node constructors, attributes on
-productions, derive lists, Cargo features) and to put at least one change outside `preprocess.rs`). Each sub-agent saw
+productions, derive lists, Cargo features) and to put at least one change outside `preprocess.rs`, round 8 the same with RARELY EXECUTED code and boundary cases (error paths, empty
+groups, CR LF, escaped identifiers, names colliding with predefined ones, nesting of two features)). Each sub-agent saw
 only the text of one property, a scratch worktree of `/repo` under `/tmp`, and - from the second round on - one-line descriptions of the
 changes already made for that property, so as not to repeat them; nothing from `/verif`. Each change was confirmed here
 (`tools/validate_seeds.py`, scratch worktree outside `/repo` and `/verif`): the patch applies to `/repo` HEAD, the 120-test suite still
@@ -76,14 +77,14 @@ passes, the author's demonstration passes on the unchanged tree and fails with t
 `seeded/<id>/{patch.diff,demo.rs,meta.json}`; C17-5/6 by hand because their demonstrations need `--cfg sv_parser_verif`). Then EVERY
 claimed check was run against EVERY change (`tools/run_checks_on_seeds.py`, `VERIF_REPO`/`VERIF_OUT` pointing outside `/repo` and
 `/verif`); nothing is ever committed to `/repo`. `seeded/RESULTS.md` / `seeded/results.json` hold the full matrix of the last run. Ids:
-`Cxx-1/2` first round, `Cxx-3/4` second, `Cxx-5/6` third, `Cxx-7/8` fourth, `Cxx-9/10` fifth, `Cxx-11/12` sixth, `Cxx-13/14` seventh.
+`Cxx-1/2` first round, `Cxx-3/4` second, `Cxx-5/6` third, `Cxx-7/8` fourth, `Cxx-9/10` fifth, `Cxx-11/12` sixth, `Cxx-13/14` seventh, `Cxx-15/16` eighth.
 
 Result of the last run (own property of each change): **%d VIOLATION, %d undecided (exit 2), %d missed** of %d
 (%s). Undecided always means that the changed code left what the verifier front end or an
 annotation anchor accepts (a new helper with `?`, iterator chains with closures, a new struct, a rewritten `quote!` template, a
 changed signature), or - since the fourth pass - that a production of the pp grammar whose accepted language is an ASSUMED contract
 (A-pplex) is no longer the pinned text; it is never an alarm. The verdicts above are those of the checks AS STRENGTHENED after each
-round; what each round found missing when it was first run is told in 13.9.
+round; what each round found missing when it was FIRST run is told in 13.10.
 """ % (len(seeded), tot['V'], tot['U'], tot['M'], len(seeded),
        '; '.join('round %d: %s' % (r, ', '.join('%d %s' % (per.get(r, collections.Counter())[k], n) for k, n in (('V', 'V'), ('U', 'U'), ('M', 'missed')))) for r in range(1, NR + 1))))
 for rnd in range(1, NR + 1):
@@ -91,22 +92,25 @@ for rnd in range(1, NR + 1):
 alarms = {k: v['caught_by'] for k, v in ben.items() if v['caught_by']}
 und = {k: v['undecided_in'] for k, v in ben.items() if v['undecided_in']}
 out.append("""
-### 13.7 Benign patches (the property holds; an alarm here is a false alarm)
+### 13.%d Benign patches (the property holds; an alarm here is a false alarm)
 
-%d patches in `seeded/benign/`: nine written here (B1-B9: comments and layout, renamed locals, reordered independent statements
+%d patches in `seeded/benign/`: ten written here (B1-B10: comments and layout, renamed locals, reordered independent statements
 and `skip_nodes.push` calls, an equivalent expression, a local for a forwarded flag, `.iter()` over the keyword table, reordered
-match arms, an equivalent combinator form) and sixteen behaviour-preserving refactorings written by four fresh sub-agents
-(RA-RD: extract helper, loop into iterator adapter, `if let` into `match`, early return, named locals, generated code built with
-`map`, ..). Last run: **%d alarms**; %d patches leave at least one check undecided:
+match arms, an equivalent combinator form, a constant once-cell) and twenty-four behaviour-preserving refactorings written by six
+fresh sub-agents (RA-RD in the third pass: extract helper, loop into iterator adapter, `if let` into `match`, early return, named
+locals, generated code built with `map`, ..; RE, RF in the fourth pass, aimed at the places the new obligations look at: the fragment
+lexers, `macro_text`, the seeding of the define table, the error mapping, the identifier lexers and the keyword stack, `Cargo.toml`,
+the conversions, `Range`, `split_text`). Last run: **%d alarms**; %d patches leave at least one check undecided (undecided is exit 2,
+not an alarm; the premise closure and A-pplex made this list longer on purpose):
 
 | patch | undecided checks |
 |---|---|
 %s
-""" % (len(ben), len(alarms), len(und), '\n'.join('| %s | %s |' % (k, ' '.join(v)) for k, v in sorted(und.items())) or '| - | - |'))
+""" % (NR + 1, len(ben), len(alarms), len(und), '\n'.join('| %s | %s |' % (k, ' '.join(v)) for k, v in sorted(und.items())) or '| - | - |'))
 if alarms:
     out.append('\nALARMS ON BENIGN PATCHES (to be corrected): %s\n' % alarms)
 out.append("""
-### 13.9 What the rounds taught, and what was strengthened because of them
+### 13.%d What the rounds taught, and what was strengthened because of them
 
 Round 1: unit split (C05-2), unit display (C08-2), `C17.direct-state-access` (C17-2), `okfrom` (C20-1), `Chars::count` spec and
 pt under C06 (C06-2), soft anchors and quarantine (C04-2, C18-2, B3), multiset skip contract (B4), gvc.pptotal (C06-1).
@@ -140,7 +144,7 @@ Still undecided and why: helpers with `?` or a changed signature (C01-6, C15-6, 
 `map().collect()`, `retain`: C03-6, C20-5, C11-5), new data structures or API of std's B-tree (C08-6, C03-4), a new arm with a new
 method (C04-6), annotation anchors that no longer fit the restructured code (C05-6, C16-6, C16-2, C18-6), a deleted state variable
 (C10-5), a statement in a frozen stretch (C06-5).
-""")
+""" % (NR + 2))
 text = ''.join(out)
 p = os.path.join(V, 'DESIGN.md')
 t = open(p).read()
